@@ -117,8 +117,8 @@ theorem fresh_good (eng : Eng E) (hS : eng.Strict) (ex : E) (line : List Char) :
         simp only [if_true]
         intro c d e' rest hc ht hd hcont hx2
         simp only [] at hcont hx2
-        have hne : ∀ w ∈ Fen.splitSpaces (Fen.trimSpace c.render), w ≠ [] := by
-          rw [ht, splitSpaces_render c hc]; exact words_ne_nil_each c hc
+        have hne : ∀ w ∈ Fen.splitSpaces (Fen.trimSpace c.render), Word w := by
+          rw [ht, splitSpaces_render c hc]; exact words_word c hc
         have ha := argsOf_continuation _ _ _ hcont hne
         rw [argsOf_render c hc ht] at ha
         rcases List.append_eq_append_iff.1 ha with ⟨as, h1, h2⟩ | ⟨bs, h1, h2⟩
